@@ -1,7 +1,7 @@
 (* C03 -- Command builders emit valid frames of the advertised verb/code that decode back.  Statements only.
    PAYLOAD_REGEXES and API_MAP are regenerated from the source on every run; `payload_ok` is re.match by the verified matcher. *)
 From Coq Require Import ZArith String Ascii List Bool.
-From RV Require Import Py PyStr Regex GenRegex GenTables M_Command P_Command.
+From RV Require Import Py PyStr Regex GenRegex GenTables M_Codecs M_Command P_Command M_ModeCmd P_ModeCmd.
 Import ListNotations.
 Open Scope Z_scope.
 
@@ -48,3 +48,60 @@ Theorem C03_registered :
   registered V_W 0x2309 "set_zone_setpoint" = true /\ registered V_RQ 0x0418 "get_system_log_entry" = true /\
   registered V_RQ 0x3220 "get_opentherm_data" = true /\ registered V_RQ 0x0404 "get_schedule_fragment" = true.
 Proof. exact registered_all. Qed.
+
+(* ---- the mode / time / configuration commands: modes x setpoints x until x duration (M_ModeCmd: the constructors with
+   _normalise_mode / _normalise_until AND the decoders parser_2349 / parser_1f41 / parser_2e04 / parser_313f / parser_000a) ---- *)
+
+(* set_zone_mode: for every zone 0..15, every mode argument, every setpoint word the encoder can produce (None = 7FFF), every valid
+   end time and every duration below FFFFFF minutes: whatever the constructor does not refuse is accepted by the W|2349 regex, and the
+   decoder returns exactly the normalised mode, the setpoint the word stands for (or rejects the frame exactly when the C04 decoder
+   rejects that word: below -273.15), the duration, and the end time to the minute *)
+Theorem C03_set_zone_mode_valid : forall idx mode spw until dur p,
+  0 <= idx < 16 -> (forall w, spw = Some w -> 0 <= w < 65536) -> (forall f, until = Some f -> valid_dt f = true) ->
+  (forall d, dur = Some d -> 0 <= d < 0xFFFFFF) ->
+  set_zone_mode idx mode spw until dur = Some p ->
+  exists m, normalise_mode mode (negb (is_some spw)) until dur = Some m /\ 0 <= m <= 4 /\
+    payload_ok V_W 0x2349 p = true /\ parser_2349 p = zm_expect m (word_of spw) until dur.
+Proof. exact set_zone_mode_valid. Qed.
+
+(* set_dhw_mode: the same for DHW 00/01 -- EXCEPT the countdown mode and a temporary override without an end time ... *)
+Theorem C03_set_dhw_mode_valid : forall dhw_idx mode active until dur p,
+  0 <= dhw_idx <= 1 -> (forall f, until = Some f -> valid_dt f = true) ->
+  set_dhw_mode dhw_idx mode active until dur = Some p ->
+  exists m, normalise_mode mode (negb (is_some active)) until dur = Some m /\ 0 <= m <= 4 /\
+    (m <> M_COUNTDOWN -> ~ (m = M_TEMPORARY /\ until = None) ->
+     payload_ok V_W 0x1F41 p = true /\ parser_1f41 p = dm_expect m active until).
+Proof. exact set_dhw_mode_valid. Qed.
+(* ... which are built and then rejected by the library's own decoder, as is a DHW index other than 00/01 (known findings) *)
+Theorem C03_set_dhw_mode_countdown_refuted :
+  exists p, set_dhw_mode 0 (Some M_COUNTDOWN) (Some true) None (Some 60) = Some p /\ payload_ok V_W 0x1F41 p = false.
+Proof. exact set_dhw_mode_countdown_refuted. Qed.
+Theorem C03_set_dhw_mode_temporary_without_until_refuted :
+  exists p, set_dhw_mode 0 (Some M_TEMPORARY) (Some true) None None = Some p /\ payload_ok V_W 0x1F41 p = true /\ parser_1f41 p = Raise AssertionError.
+Proof. exact set_dhw_mode_temporary_without_until_refuted. Qed.
+Theorem C03_set_dhw_mode_idx_refuted :
+  exists p, set_dhw_mode 2 (Some M_PERMANENT) (Some true) None None = Some p /\ payload_ok V_W 0x1F41 p = false.
+Proof. exact set_dhw_mode_idx_refuted. Qed.
+
+(* set_system_mode: every mode 00..07 with or without an end time (refused for auto / heat_off / auto_with_reset) *)
+Theorem C03_set_system_mode_valid : forall mode until p,
+  (forall f, until = Some f -> valid_dt f = true) -> set_system_mode mode until = Some p ->
+  let m := match mode with Some m => m | None => 0 end in
+  0 <= m <= 7 /\ payload_ok V_W 0x2E04 p = true /\ parser_2e04 p = sm_expect m until.
+Proof. exact set_system_mode_valid. Qed.
+
+(* set_system_time: every valid datetime (years 1..9999, leap days) and the DST flag, to the second *)
+Theorem C03_set_system_time_valid : forall d dst, valid_dt d = true ->
+  payload_ok V_W 0x313F (set_system_time d dst) = true /\ parser_313f (set_system_time d dst) = Ok (Some d, dst).
+Proof. exact set_system_time_valid. Qed.
+
+(* set_zone_config: every zone 0..15, min 5..21, max 21..35 on the 0.01 grid, the three flags *)
+Theorem C03_set_zone_config_valid : forall idx kmin kmax lo ow mr p, 0 <= idx < 16 -> set_zone_config idx kmin kmax lo ow mr = Some p ->
+  500 <= kmin <= 2100 /\ 2100 <= kmax <= 3500 /\ payload_ok V_W 0x000A p = true /\
+  parser_000a p = (do a <- hex_to_temp kmin; do c <- hex_to_temp kmax; Ok (mk_zconf a c lo ow mr)).
+Proof. exact set_zone_config_valid. Qed.
+
+Theorem C03_mode_cmds_registered :
+  registered V_W 0x2349 "set_zone_mode" = true /\ registered V_W 0x1F41 "set_dhw_mode" = true /\ registered V_W 0x2E04 "set_system_mode" = true /\
+  registered V_W 0x313F "set_system_time" = true /\ registered V_W 0x000A "set_zone_config" = true.
+Proof. vm_compute. repeat split. Qed.
